@@ -196,7 +196,7 @@ func min(a, b int) int {
 }
 
 func init() {
-	alphabet := []string{"AetherROCAdmin", "EnterpriseAdmin", "Admin", "AetherROC", "AetherROCAdminX", "aetherrocadmin", "", "mixedGroup"}
+	alphabet := []string{"AetherROCAdmin", "EnterpriseAdmin", "Admin", "AetherROC", "AetherROCAdminX", "aetherrocadmin", "", "mixedGroup", "EnterpriseAdmin Observers", "x,AetherROCAdmin"}
 	var lists [][]string
 	lists = append(lists, nil) // identity without any groups claim
 	for _, a := range alphabet {
@@ -219,13 +219,13 @@ func init() {
 		unset bool
 	}
 	settings := []setting{{"", true}, {"AetherROCAdmin", false}, {"AetherROCAdmin,EnterpriseAdmin", false}, {"Admin,AetherROCAdmin", false}, {"mixedGroup,AetherROCAdmin,EnterpriseAdmin", false}, {"A", false}}
-	const chunk = 65
+	const chunk = 101
 	nChunks := (len(lists) + chunk - 1) / chunk
 	fw.Register(&fw.Check{ID: "C14", Level: "exploration", Exhaustive: true,
-		Technique: "runtime monitoring, exhaustive small scope: every caller group list of length 0..3 over an 8-name alphabet (admin names, substrings, superstrings, case variants, empty) x 6 ADMINGROUPS settings through the real Set handler; exact set-membership oracle; log length as witness; listing of all targets under authorization vs reference filter",
-		Rule:      "585 group lists x 6 settings = 3510 authenticated Sets (each case = one setting x 65 lists) + 2 listing cases of 400 PRNG group lists; distinct_nontrivial = distinct (setting) classes + listing",
+		Technique: "runtime monitoring, exhaustive small scope: every caller group list of length 0..3 over a 10-name alphabet (admin names, substrings, superstrings, case variants, empty, names containing a blank or comma) x 6 ADMINGROUPS settings through the real Set handler; exact set-membership oracle; log length as witness; listing of all targets under authorization vs reference filter",
+		Rule:      "1111 group lists (length 0..3 over a 10-name alphabet incl. names containing a blank or a comma) x 6 settings = 6666 authenticated Sets (each case = one setting x 101 lists) + 2 listing cases of 400 PRNG group lists; distinct_nontrivial = distinct (setting) classes + listing",
 		Assumptions: []string{"identity metadata is what the onos-lib-go authentication interceptor leaves in the incoming context: name, email, groups joined by ';'", "ADMINGROUPS is a comma-separated list"},
-		Floors:      map[string]int64{"authenticated_sets": 3500, "sets_expected_allowed": 500, "listings": 700},
+		Floors:      map[string]int64{"authenticated_sets": 6600, "sets_expected_allowed": 900, "listings": 700},
 		Cases:       func(tier string) int { return len(settings)*nChunks + 2 },
 		Run: func(c *fw.Case) {
 			if c.Index >= len(settings)*nChunks {
@@ -263,7 +263,7 @@ func c13Run(c *fw.Case, n int) {
 	defer w.Close()
 	r := c.Rng.Fork("c13")
 	validLeaves := []string{"/foo", "/bar", "/a/b", "/a/bc", "/a/d/e", "/cont/leaf2", "/cont-x/leaf", "/c/l[k=x]/v", "/c/l[k=xy]/v", "/c/l[k=x]/sub/x", "/c/m[k1=1][k2=2]/v", "/c/l[k=x]/k", "/c/l[k=x]/in[id=1]/w"}
-	validDeletes := []string{"/foo", "/a", "/a/b", "/c/l[k=x]", "/c", "/cont", "/c/m[k1=1][k2=2]", "/c/l[k=x]/k", "/c/l[k=x]/in[id=1]"}
+	validDeletes := []string{"/foo", "/a", "/a/b", "/c/l[k=x]", "/c/l", "/c", "/cont", "/c/m[k1=1][k2=2]", "/c/l[k=x]/k", "/c/l[k=x]/in[id=1]"}
 	snapshot := func() string {
 		var sb strings.Builder
 		txs, _ := w.Cur().RawTxs.List(context.Background())
@@ -289,7 +289,7 @@ func c13Run(c *fw.Case, n int) {
 		badKind := ""
 		if r.Chance(3, 5) {
 			badAt = r.Intn(nOps)
-			badKind = []string{"unknown-target", "no-plugin", "non-model-path", "read-only-path", "key-mismatch", "bad-key-chars"}[r.Intn(6)]
+			badKind = []string{"unknown-target", "no-plugin", "non-model-path", "read-only-path", "key-mismatch", "bad-key-chars", "key-equals-other-index", "key-equals-other-index"}[r.Intn(8)]
 		}
 		var commonPrefix refmodel.Path
 		if r.Chance(1, 3) {
@@ -352,6 +352,20 @@ func c13Run(c *fw.Case, n int) {
 						op.kind = "update"
 						op.elems = refmodel.MustParse("/c/l[k=x]/k")
 						op.val = refmodel.S("y")
+					}
+				case "key-equals-other-index":
+					// a key leaf whose value contradicts its own key but equals another index of the path
+					if prefixLen > 0 && commonPrefix.String() != "/c" {
+						op.bad = ""
+					} else {
+						op.kind = "update"
+						if r.Chance(1, 2) {
+							op.elems = refmodel.MustParse("/c/m[k1=1][k2=2]/k1")
+							op.val = refmodel.S("2")
+						} else {
+							op.elems = refmodel.MustParse("/c/m[k1=7][k2=9]/k2")
+							op.val = refmodel.S("7")
+						}
 					}
 				case "bad-key-chars":
 					if prefixLen > 0 && commonPrefix.String() != "/c" {
